@@ -278,8 +278,8 @@ CLAIMED = {
              "get_last_formula (formula, goals, soft clauses, weights, signedness) is compared with the reference "
              "model, the objective term() of every soft-clause goal is evaluated against the weighted sum of the live "
              "soft clauses; (b) all reachable (implementation x native solver x reference) states of the tracking solver "
-             "to depth 6 (thorough 8) over add/push n/pop n/reset/solve/assumptions/is_sat/is_valid/is_unsat/read and "
-             "one-shot queries that are refused or answered unknown, repeated with generate_models=False (depth 5/7), a "
+             "to depth 6 (thorough 7) over add/push n/pop n (n up to 3)/reset/solve/assumptions/is_sat/is_valid/is_unsat/read and "
+             "one-shot queries that are refused or answered unknown, repeated with generate_models=False (depth 5/6), a "
              "second solver object being alive during every history; assertions, native stack and verdicts are checked "
              "in every state.",
         note="Trusted: the reference stack model in mc/props/c16.py and BruteSolver (mc/core/refsolver.py), which "
